@@ -92,7 +92,7 @@ async fn resolve_recursive_notimeout<'a>(
     context.push_question(question);
 
     if candidates.is_none() {
-        candidates = candidate_nameservers(context, &question.name);
+        candidates = reachable_candidate_nameservers(context, &question.name);
     }
 
     if let Some(candidates) = candidates {
@@ -400,6 +400,54 @@ fn candidate_nameservers(
     }
 
     None
+}
+
+/// Like `candidate_nameservers`, but skips delegations we know the nameservers
+/// of without holding an address for any of them (the `NS` records outlived
+/// the glue): looking those addresses up would begin at that very delegation
+/// again and go nowhere.  The enclosing delegation's referral brings fresh
+/// glue.
+fn reachable_candidate_nameservers(
+    context: &mut RecursiveContext<'_>,
+    question: &DomainName,
+) -> Option<Nameservers> {
+    let mut name = question.clone();
+    loop {
+        let candidates = candidate_nameservers(context, &name)?;
+        if candidates.name.is_root()
+            || candidates
+                .hostnames
+                .iter()
+                .any(|hostname| has_local_address(context, hostname))
+        {
+            return Some(candidates);
+        }
+        tracing::trace!(name = %candidates.name, "no address known for any nameserver, trying the enclosing delegation");
+        name = DomainName::from_labels(candidates.name.labels[1..].into())?;
+    }
+}
+
+/// Whether zones or cache hold an address, of a family we may use, for a
+/// nameserver.
+fn has_local_address(context: &mut RecursiveContext<'_>, hostname: &DomainName) -> bool {
+    let rtypes: &[RecordType] = match context.r.protocol_mode {
+        ProtocolMode::OnlyV4 => &[RecordType::A],
+        ProtocolMode::OnlyV6 => &[RecordType::AAAA],
+        ProtocolMode::PreferV4 | ProtocolMode::PreferV6 => &[RecordType::A, RecordType::AAAA],
+    };
+    rtypes.iter().any(|rtype| {
+        let question = Question {
+            name: hostname.clone(),
+            qtype: QueryType::Record(*rtype),
+            qclass: QueryClass::Record(RecordClass::IN),
+        };
+        match resolve_local(context, &question) {
+            Ok(LocalResolutionResult::Done { resolved }) => {
+                get_ip(&resolved.rrs(), hostname, *rtype).is_some()
+            }
+            _ => false,
+        }
+    })
 }
 
 /// Validate a nameserver response against the question by only keeping valid
